@@ -124,4 +124,17 @@ CHECKS = {
         'transition: which registered constructor built the answer (or ValueError), object identity per cache key, and real cache key set '
         '== reference model state.',
    note=BASE_NOTE + 'Registered constructors are wrapped through the public model_factories dict to tag constructions.'),
+ 'C18': dict(engine='E1-choice-tree', design_ref='7/C18',
+   technique='exhaustive definition-by-definition AST comparison of all generated modules against the output of the repository generator',
+   text='The repository\'s own resource generator is run on Patterns/*.yaml for every entry of the five resource-definitions.json files '
+        'into a scratch directory, and all 3,777 definitions of the 45 output modules are compared as ASTs with the checked-in '
+        'modules (plus module-level headers/footers and the sets of names). A finite configuration space enumerated completely: '
+        'the depth-0 case of the family.',
+   note=BASE_NOTE + 'The generator runs on the ruamel.yaml stand-in.'),
+ 'C19': dict(engine='E1-choice-tree', design_ref='7/C19',
+   technique='exhaustive run of every Python-supported spec case through the repository\'s own runner functions plus strict offset comparison',
+   text='All 14,655 Python-supported cases of Specs/** at Model / Extractor / Parser / MergedParser level through the project\'s own '
+        'test functions (same selection, same assertions), plus Start/End comparison for the Sequence and Choice model cases, which '
+        'the project\'s runner does not compare.',
+   note=BASE_NOTE),
 }
